@@ -150,8 +150,19 @@ item("sndMsgSigExhausted", "src/composed/message/parser.rs",
 # hashed area re-serialised for the digest
 item("sndHashedReserialised", SC_, _calls("hash_signature_data", r"packet\.to_writer\(&mut hashed_subpackets\)\?"), "hash_signature_data hashes the re-serialisation of the parsed hashed subpackets")
 
-flag("sndHashedAreaCanonical", "src/packet/signature/de.rs", r"fn v4_parser.*?let hsub = subpackets\(.*?\)\?;\s*ensure_hashed_area_canonical\(&hsub, &hsub_raw\)\?;",
-     "signature/de.rs: the parser refuses a hashed area that hash_signature_data would write back differently")
+def _top_fn(text, name):
+    m = re.search(r"\nfn " + name + r"\b", text)
+    if not m:
+        return ""
+    rest = text[m.end():]
+    n = re.search(r"\n(?:pub )?fn \w+", rest)
+    return rest[: n.start()] if n else rest
+
+
+item("sndHashedAreaCanonical", "src/packet/signature/de.rs",
+     lambda t: 1 if all(re.search(r"let hsub = subpackets\(.*?\)\?;\s*ensure_hashed_area_canonical\(&hsub, &hsub_raw\)\?;", _top_fn(t, f), re.S) for f in ("v4_parser", "v6_parser"))
+                    and re.search(r"written == raw", _top_fn(t, "ensure_hashed_area_canonical")) else 0,
+     "signature/de.rs: the v4 and the v6 parser refuse a hashed area that hash_signature_data would write back differently")
 
 # PQC arms of is_pqc that are compiled without the draft-pqc feature
 def _pqc_arms(text):
